@@ -27,6 +27,9 @@ def run(check: Check):
              '(each example is scored independently of the other rows)')
   check.rule('R-OFFSET', 'centre crop offsets are (32 - crop) // 2; EMNIST writer-id slices are consistent with the two '
              'documented client-id formats')
+  check.rule('R-AXIS.flip', 'the random horizontal flip of the CIFAR-100 TFF preprocessing reverses the axis that the crop_width slice '
+             'cuts (two sites that must agree: the 4-index crop and the flip); a flip along any other axis mirrors rows or '
+             'batch order instead of columns')
   check.undecided('losslessness of the Shakespeare tokenizer on all snippet lists; numeric agreement with TensorFlow on '
                   'images; that random crops are sub-windows (value-level statements)')
   cf = ConstFolder(repo)
@@ -34,6 +37,7 @@ def run(check: Check):
   _stackoverflow(check, cf)
   _metric_config(check)
   _cifar(check)
+  _cifar_flip(check)
   _tasks(check)
   _row_independence(check)
   _emnist(check, cf)
@@ -478,6 +482,67 @@ def _cifar(check: Check):
       check.ob('R-RANGE', fi, f'accepted {prm}', ok_rng,
                f'exactly the sizes 1..32 pass the validation (found: {"?" if unknown else shown}): a documented size that is rejected, or an '
                'impossible one that is accepted, breaks the crop', node=rs[0].ast)
+
+
+def _const_int(e):
+  if isinstance(e, ast.Constant) and isinstance(e.value, int) and not isinstance(e.value, bool):
+    return e.value
+  if isinstance(e, ast.UnaryOp) and isinstance(e.op, ast.USub) and isinstance(e.operand, ast.Constant) and isinstance(e.operand.value, int):
+    return -e.operand.value
+  return None
+
+
+def _cifar_flip(check: Check):
+  """R-AXIS.flip: crop site and flip site of preprocess_image_tff agree on which axis is the width."""
+  repo = check.repo
+  fi = repo.func(f'{DS}.cifar100', 'preprocess_image_tff')
+  ff = FuncFlow.of(repo, fi)
+  pp = fi.positional_params
+  if len(pp) < 3:
+    check.inconclusive('R-AXIS.flip', fi, 'crop_width parameter', 'signature changed')
+    return
+  hname, wname = pp[1], pp[2]
+  RANK = 4
+  width_pos = set()
+  for s in ast.walk(fi.node):
+    if isinstance(s, ast.Subscript) and isinstance(s.slice, ast.Tuple) and len(s.slice.elts) == RANK:
+      for i, el in enumerate(s.slice.elts):
+        if isinstance(el, ast.Slice) and el.step is None:
+          names = {x.id for b in (el.lower, el.upper) if b is not None for x in ff.deep_walk(b) if isinstance(x, ast.Name)}
+          if wname in names and hname not in names:   # a bound derived from the width alone (the random-crop bounds mix both)
+            width_pos.add(i)
+  if len(width_pos) != 1:
+    check.inconclusive('R-AXIS.flip', fi, f'slice bounded by {wname}', f'the axis cut by {wname} is not unique: {sorted(width_pos)}')
+    return
+  w = next(iter(width_pos))
+  flips = []   # (node, axis or None, text)
+  for x in ast.walk(fi.node):
+    if isinstance(x, ast.Call):
+      e = ff.ext(x.func)
+      if e in ('numpy.flip', 'jax.numpy.flip'):
+        ax = x.args[1] if len(x.args) > 1 else next((k.value for k in x.keywords if k.arg == 'axis'), None)
+        a = _const_int(ax) if ax is not None else None
+        flips.append((x, None if a is None else a % RANK, txt(x)))
+      elif e in ('numpy.fliplr', 'jax.numpy.fliplr'):
+        flips.append((x, 1, txt(x)))
+      elif e in ('numpy.flipud', 'jax.numpy.flipud'):
+        flips.append((x, 0, txt(x)))
+    elif isinstance(x, ast.Subscript):
+      elts = list(x.slice.elts) if isinstance(x.slice, ast.Tuple) else [x.slice]
+      ell = [i for i, el in enumerate(elts) if isinstance(el, ast.Constant) and el.value is Ellipsis]
+      for i, el in enumerate(elts):
+        if isinstance(el, ast.Slice) and el.step is not None and _const_int(el.step) == -1 and el.lower is None and el.upper is None:
+          pos = i if not ell or i < ell[0] else RANK - (len(elts) - i)
+          flips.append((x, pos, txt(x)))
+  if not flips:
+    check.inconclusive('R-AXIS.flip', fi, 'np.flip(image, axis=...)', 'no flip found in the distort branch')
+    return
+  for node, ax, t in flips:
+    check.ob('R-AXIS.flip', fi, t, None if ax is None else ax == w,
+             f'the flip reverses axis {ax} of the NHWC batch; the {wname} slice cuts axis {w}' +
+             ('' if ax == w else ': this is not a left-right flip (tf.image.random_flip_left_right reverses the width axis)'),
+             node=node)
+  check.floor('R-AXIS.flip', 'flip sites compared with the crop_width axis', len(flips), 1)
 
 
 def _eval_guard(e: ast.AST, env):
